@@ -287,6 +287,10 @@ func main() {
 	})
 
 	phase("part 2a styles")
+
+	// ---- part 3: redirect followed by a session rebuild --------------------------------------------
+	pool(4, run.Pick(8, 60), func(_, i int) { runRedirectSwitch(i) })
+	phase("part 3 redirect + switch")
 	finish()
 }
 
